@@ -143,6 +143,19 @@ Theorem C10_polled_head_expected : forall last answers n sf wait p,
   In (n, sf) (snd (poll_seq last answers)) -> expected_of wait sf p = if wait then m_cl (p_msg p) else 0.
 Proof. exact polled_head_expected. Qed.
 
+(* ---------------------------------------------------------------- poller and watcher together, end to end *)
+(* the node's answers to the polls are arbitrary (errors, stale blocks, jumps of any size, e.g. 990 -> 1065); as soon as one
+   of them is a new head at or beyond height + consistency level, the message - whose receipt stays - has been forwarded
+   exactly once by the scans of the published heads *)
+Theorem C10_end_to_end : forall c s k p orc last answers,
+  NoDup (keys s) -> find k s = Some p -> wf_p p ->
+  orc k = mkAns (Some (1, k_bh k)) ENone ->
+  0 <= last -> (forall a, In (Some a) answers -> a < two64) ->
+  (exists a, In (Some a) answers /\ last < a /\ p_height p + (if c_wait c then m_cl (p_msg p) else 0) <= a) ->
+  let r := run c s (heads_ops orc (snd (poll_seq last answers))) in
+  decisions k (snd r) = [Confirmed k (p_msg p)] /\ find k (fst r) = None.
+Proof. exact end_to_end. Qed.
+
 (* ---------------------------------------------------------------- the order of the tests before repo commit 40922fc violated the liveness clause *)
 Theorem C10_original_order_refuted :
   (* log at block 1000, level 1, first observed head 1065, receipt unchanged *)
@@ -298,6 +311,22 @@ Example C10_example_poller :
   poll_tick false 990 [Some 1065] = (990, [], false).
 Proof. vm_compute. repeat apply conj; reflexivity. Qed.
 
+(* end to end: the witness of the repaired defect - lastBlock 990, the next successful poll answers 1065 *)
+Example C10_example_end_to_end :
+  let r := run exc exs (heads_ops ex_ok (snd (poll_seq 990 [None; Some 990; Some 1065; Some 1066]))) in
+  decisions ex_key (snd r) = [Confirmed ex_key (p_msg ex_pm)] /\ find ex_key (fst r) = None.
+Proof.
+  apply (C10_end_to_end exc exs ex_key ex_pm ex_ok 990 [None; Some 990; Some 1065; Some 1066]).
+  - exact ex_nodup.
+  - reflexivity.
+  - exact ex_wf.
+  - reflexivity.
+  - lia.
+  - intros a H. cbn [In] in H. unfold two64.
+    destruct H as [H|[H|[H|[H|H]]]]; try discriminate H; try contradiction; inversion H; lia.
+  - exists 1065. repeat apply conj; [right; right; left; reflexivity|lia|cbn; lia].
+Qed.
+
 Print Assumptions C10_scan_forward_safe.
 Print Assumptions C10_scan_step_safe.
 Print Assumptions C10_reobserve_safe.
@@ -312,5 +341,6 @@ Print Assumptions C10_key_independence.
 Print Assumptions C10_pending_keys_distinct.
 Print Assumptions C10_poller_heads.
 Print Assumptions C10_polled_head_expected.
+Print Assumptions C10_end_to_end.
 Print Assumptions C10_original_order_refuted.
 Print Assumptions C10_range_hypothesis_needed.
